@@ -71,8 +71,31 @@ R.contract(f'{PRK}._subprocess_func',
 
 # ---- (c) parent side: the log queue is drained after results are collected and before their tasks are yielded
 R.classes[PRK].ghost['UNDELIVERED'] = 'Set[Task]'      # GHOST: tasks whose result has been collected since the log queue was last drained
-R.contracts[f'{PRK}._consume_log_queue'].ensures = [C("empty(self.UNDELIVERED)", 'draining the log queue delivers every record enqueued so far')]
-R.contracts[f'{PRK}._consume_log_queue'].frame = ['self.UNDELIVERED']
+# _consume_log_queue is VERIFIED: it may stop only when the queue has reported Empty.  Ghost `backlog` = records put and not yet
+# taken off the log queue; TRUSTED: get_nowait() takes one record off (backlog - 1) or raises Empty, and it raises Empty only when
+# nothing put before the call is still queued (causality of Manager().Queue, as for the result queue).
+R.records['Queue'].mutable['backlog'] = 'Int'
+R.record('LogRecord', immutable={'name': 'Str'})
+R.func('LogRecord.name', ['LogRecord'], 'Str')
+R.contract('trusted:Queue.get_nowait', trusted=True, self_type='Queue', params={}, returns='LogRecord',
+    ensures=["forall('Queue', lambda q: q.backlog == (old(q.backlog) - 1 if q == self else old(q.backlog)))", "old(self.backlog) >= 1"],
+    raises={'Empty': ["forall('Queue', lambda q: q.backlog == old(q.backlog))", "self.backlog == 0"]}, frame=['Queue.backlog'],
+    note='Manager().Queue.get_nowait')
+R.alias('Queue', 'get_nowait', 'trusted:Queue.get_nowait')
+R.contract('trusted:logging.getLogger', trusted=True, params={'name': 'Str'}, returns='PyLogger', pure=True, note='logging.getLogger(name)')
+R.contract('trusted:PyLogger.handle', trusted=True, self_type='PyLogger', params={'record': 'LogRecord'}, frame=[],
+    note='Logger.handle(record): hands the record to the caller\'s handlers (delivery)')
+R.alias('PyLogger', 'handle', 'trusted:PyLogger.handle')
+_clq = R.contracts[f'{PRK}._consume_log_queue']
+_clq.trusted = False
+_clq.requires = [C("self.log_queue.backlog >= 0", 'ghost backlog is a count (number of queued records)', serves=('A-ghost',))]
+_clq.ensures = [C("self.log_queue.backlog == 0", 'DRAINED: the method returns only after the log queue reported Empty, so every record enqueued so far has been handed to the handlers', serves=('C19',)),
+                C("empty(self.UNDELIVERED)", 'hence nothing of an already collected task is undelivered', serves=('C19',))]
+_clq.ghost_at_exit = {'self.UNDELIVERED': "typed_empty('Set[Task]') if self.log_queue.backlog == 0 else self.UNDELIVERED"}
+_clq.frame = ['self.UNDELIVERED', 'Queue.backlog']
+_clq.raises = {}
+_clq.candidates = [C("self.log_queue.backlog >= 0")]
+_clq.note = 'log forwarding'
 w = R.contracts[f'{PRK}.wait']
 w.ghost_after = {'wait': {'self.UNDELIVERED': "self.UNDELIVERED | {Inst_to_Task(self.future_to_task[f]) for f in result[0]}"}}
 w.yields = w.yields + [C("Inst_to_Task(value[0]) not in self.UNDELIVERED",
